@@ -1168,7 +1168,6 @@ def _prim_event(name):
 
 def _prim_look(eng, fn, bb, t, env, state, args, where, n):
     off = args[1] if len(args) > 1 else ("i", 0)
-    state = eng.auto.event(state, ("prim", "look", (args[0] if args else TOP, off)), where)
     # memo keyed by the variable holding the offset (same variable, not reassigned, nothing consumed)
     vkey = None
     if off[0] != "i" and len(t.get("args", [])) > 1:
@@ -1176,6 +1175,10 @@ def _prim_look(eng, fn, bb, t, env, state, args, where, n):
         oe = _sym(fn).operand(t["args"][1])
         if oe[0] == "l":
             vkey = -(1000 + oe[1])
+    # the tag the answer will carry (narrowing events name it): automata that care which look-ahead was the most
+    # recent one compare it with the tag of a later narrowing
+    ltag = "look@%d" % (-vkey) if vkey is not None else ("look@%d" % off[1] if off[0] == "i" and 0 <= off[1] < 64 else "look")
+    state = eng.auto.event(state, ("prim", "look", (args[0] if args else TOP, off), ltag), where)
     if vkey is not None:
         if vkey in env:
             state = eng.auto.event(state, ("narrow", "look", env[vkey]), where)
